@@ -126,6 +126,23 @@ def extract_resolution(repo=None):
     return out
 
 
+def extract_defaults(repo=None):
+    """[(parameter, expr)] for the parameters of __init__ that have a translatable numeric default"""
+    _, init = _init_fn(repo)
+    args = init.args.args
+    defaults = [None] * (len(args) - len(init.args.defaults)) + list(init.args.defaults)
+    tr = pyexpr.ExprTranslator("self", {}, ())
+    out = []
+    for a, d in zip(args, defaults):
+        if d is None or (isinstance(d, ast.Constant) and d.value is None):
+            continue
+        try:
+            out.append((a.arg, tr.tr(d)))
+        except pyexpr.Untranslatable:
+            continue
+    return out
+
+
 def extract_contour_functions(repo=None, chain_names=()):
     cls, _ = _init_fn(repo)
     defined = {n: n for n in chain_names}
@@ -187,6 +204,16 @@ def emit(ctx, pid, with_resolution=True, with_contours=True):
         cf = extract_contour_functions(chain_names=[n for n, _ in chain])
         for k, e in sorted(cf.items()):
             lines.append(f"def fn_{k} : Expr := {pyexpr.lean_expr(e)}")
+    lines.append("")
+    dflt = extract_defaults()
+    lines.append("/-- numeric defaults of the optional parameters of `GenericElongationGroove.__init__` -/")
+    lines.append("def defaults : List (String × Expr) := [" + ", ".join(
+        f"({pyexpr.lean_str(k)}, {pyexpr.lean_expr(e)})" for k, e in dflt) + "]")
+    lines.append("")
+    lines.append("/-- everything above by name (for the Float evaluation driver) -/")
+    lines.append("def table : List (String × Expr) := chain ++ ["
+                 + ", ".join([f"(\"resolve_{k}\", resolve_{k})" for k in sorted(res)]
+                             + [f"(\"fn_{k}\", fn_{k})" for k in sorted(cf)]) + "]")
     lines.append("")
     lines.append(f"end {ns}")
     text = "\n".join(lines) + "\n"
